@@ -10,8 +10,8 @@
    points only.  A falsy update argument (None, 0, "", {}, []) is "not given": nothing is
    assigned.  Which check guards which entry point is tied by the battery of harness/c14.py. *)
 From Coq Require Import List ZArith NArith Bool.
-From TF Require gen.ValidGen.
-From TF Require Import Base Query DB Valid ValidSem proofs.ValidP proofs.ValidGenP.
+From TF Require gen.ValidGen gen.UpdArgGen.
+From TF Require Import Base Query DB Valid ValidSem UpdArgSem proofs.ValidP proofs.ValidGenP proofs.UpdArgGenP.
 Import ListNotations.
 
 Theorem C14_assigned_is_typed : forall s v, slot_ok s v = true <-> typed s v.
@@ -55,6 +55,25 @@ Proof. exact source_validate_fields_iff. Qed.
 Theorem C14_source_rejects_bool_fields : forall d k b, In (k, PvBool b) d -> ValidGen.validate_fields (PvDict d) = false.
 Proof. exact source_rejects_bool_fields. Qed.
 
+(* which static arguments update / update_all REJECT is decided at the head of TinyFlux._generate_updater; those `if` statements, REGENERATED from
+   tinyflux/database.py on every run (gen/UpdArgGen.v, harness/py2coq_updarg.py; validate_tags / validate_fields being the validators regenerated
+   from point.py), are the model's decisions for every value: an argument is rejected iff it is truthy, not callable and fails its slot's check;
+   unset_tags / unset_fields iff truthy and neither a str nor an iterable of str.  With C14_update_argument: what is not rejected is ignored,
+   a callable, or typed *)
+Theorem C14_source_update_argument_time : forall v, UpdArgGen.gen_rejected_time v = is_rejected (upd_arg STime v).
+Proof. exact gen_rejected_time_eq. Qed.
+Theorem C14_source_update_argument_measurement : forall v, UpdArgGen.gen_rejected_measurement v = is_rejected (upd_arg SMeas v).
+Proof. exact gen_rejected_measurement_eq. Qed.
+Theorem C14_source_update_argument_tags : forall v, UpdArgGen.gen_rejected_tags v = is_rejected (upd_arg STags v).
+Proof. exact gen_rejected_tags_eq. Qed.
+Theorem C14_source_update_argument_fields : forall v, UpdArgGen.gen_rejected_fields v = is_rejected (upd_arg SFields v).
+Proof. exact gen_rejected_fields_eq. Qed.
+Theorem C14_source_update_argument_unset : forall v,
+  UpdArgGen.gen_rejected_unset_tags v = negb (unset_ok v) /\ UpdArgGen.gen_rejected_unset_fields v = negb (unset_ok v).
+Proof. exact gen_rejected_unset_eq. Qed.
+Theorem C14_source_update_nothing_given : forall a b c d e f, UpdArgGen.gen_nothing_given a b c d e f = forallb (fun v => negb (truthy_v v)) [a; b; c; d; e; f].
+Proof. exact gen_nothing_given_eq. Qed.
+
 Print Assumptions C14_assigned_is_typed.
 Print Assumptions C14_source_validators_are_the_model.
 Print Assumptions C14_source_tags_accepts_exactly_typed.
@@ -66,3 +85,9 @@ Print Assumptions C14_bool_is_not_a_field_value.
 Print Assumptions C14_insert.
 Print Assumptions C14_tags_reading.
 Print Assumptions C14_fields_reading.
+Print Assumptions C14_source_update_argument_time.
+Print Assumptions C14_source_update_argument_measurement.
+Print Assumptions C14_source_update_argument_tags.
+Print Assumptions C14_source_update_argument_fields.
+Print Assumptions C14_source_update_argument_unset.
+Print Assumptions C14_source_update_nothing_given.
